@@ -60,7 +60,7 @@ def gen_def(rng, l2_safe=False):
     used = set()
     for i in range(rng.choice([1, 2, 3])):
         name = ON[i]
-        sizes = [1, 3, 8, 8, 12, 16, 24, 32, 40, 64, 128]
+        sizes = [1, 3, 8, 8, 12, 16, 24, 32, 40, 64, 128, 9, 10, 15, 17, 20, 33, 63, 65, 100]   # whole and partial bytes
         bo = rng.choice([None, "LE", "BE"])
         bi = rng.choice([None, None, "LSB0", "MSB0"])
         if rng.random() < 0.75:
